@@ -2,9 +2,11 @@ package sess
 
 import (
 	"fmt"
+	"sort"
 	"testing"
 	"time"
 
+	simplefixgo "github.com/b2broker/simplefix-go"
 	"pgregory.net/rapid"
 
 	"verif/harness/evid"
@@ -18,6 +20,11 @@ type C09Case struct {
 	Script
 	N       int    `json:"n"`
 	Pattern string `json:"pattern"`
+	// RefuseProbes: an application outgoing handler refuses every TestRequest, so
+	// the probe never reaches the wire; the attempts (instants at which the handler
+	// was offered a TestRequest) take the place of the probes in the oracle: a peer
+	// that stays silent for a second period is disconnected all the same.
+	RefuseProbes bool `json:"refuse_probes,omitempty"`
 }
 
 func tolT(n int) time.Duration {
@@ -108,11 +115,21 @@ func genC09(t *rapid.T) *C09Case {
 		}
 	}
 	c.MaxHB = n
+	c.RefuseProbes = c.Pattern != "steady" && rapid.IntRange(0, 4).Draw(t, "refuseProbes") == 0
 	return c
 }
 
 func checkC09(c *C09Case, rec *evid.Rec) (vs []pbt.Violation) {
-	tr := rig.RunDirect(outerT, c.Cfg, c.Steps, nil, c.MaxHB)
+	var hooks *rig.Hooks
+	if c.RefuseProbes {
+		hooks = &rig.Hooks{BeforeRun: func(h *simplefixgo.DefaultHandler, log *rig.EventLog) {
+			h.HandleOutgoing(rig.TTestRequest, func(msg simplefixgo.SendingMessage) bool {
+				log.Add(rig.Event{Kind: "probe-refused"})
+				return false
+			})
+		}}
+	}
+	tr := rig.RunDirect(outerT, c.Cfg, c.Steps, hooks, c.MaxHB)
 	if tr.Trouble != "" {
 		return []pbt.Violation{pbt.V("harness", "%s", tr.Trouble)}
 	}
@@ -160,6 +177,14 @@ func checkC09(c *C09Case, rec *evid.Rec) (vs []pbt.Violation) {
 		if e.Kind == "event" && e.Name == "handler:stopped" && stoppedAt < 0 {
 			stoppedAt = e.T // may be logged before or after the disconnect event: two goroutines, same instant
 		}
+	}
+	if c.RefuseProbes {
+		for _, e := range tr.Log.Since(0) {
+			if e.Kind == "probe-refused" {
+				line = append(line, pt{e.T, "probe"})
+			}
+		}
+		sort.SliceStable(line, func(i, j int) bool { return line[i].at < line[j].at })
 	}
 	// walk the timeline with the rule of the property
 	lastIn := time.Duration(-1)
@@ -265,6 +290,9 @@ func checkC09(c *C09Case, rec *evid.Rec) (vs []pbt.Violation) {
 	}
 	if nProbes > 0 {
 		rec.Hist("probed")
+	}
+	if c.RefuseProbes && nProbes > 0 {
+		rec.Hist("probe-refused-by-application-handler")
 	}
 	if rec.WantSample() && nontrivial {
 		var tl []string
